@@ -60,7 +60,7 @@ func runSolver(ctx context.Context, s solverSpec, file string, timeoutS int) sol
 // solve decides one obligation: z3-new first, then the other solvers in parallel.
 func solve(dir string, ob *Obligation, idx int, timeoutS int, second bool) {
 	file := filepath.Join(dir, fmt.Sprintf("ob%04d.smt2", idx))
-	text := "; obligation: " + ob.Name + " :: " + strings.ReplaceAll(ob.Text, "\n", " ") + "\n" + ob.Script.render(ob.Goal, false)
+	text := "; obligation: " + ob.Name + " :: " + strings.ReplaceAll(ob.Text, "\n", " ") + "\n" + ob.Script.render(ob.Goal, false, ob.NAsserts)
 	if err := os.WriteFile(file, []byte(text), 0o644); err != nil {
 		ob.Status, ob.Output = "unknown", err.Error()
 		return
@@ -113,7 +113,7 @@ func solve(dir string, ob *Obligation, idx int, timeoutS int, second bool) {
 	if r.status == "sat" && !ob.Cover {
 		// fetch a model
 		mfile := filepath.Join(dir, fmt.Sprintf("ob%04d.model.smt2", idx))
-		_ = os.WriteFile(mfile, []byte(ob.Script.render(ob.Goal, true)), 0o644)
+		_ = os.WriteFile(mfile, []byte(ob.Script.render(ob.Goal, true, ob.NAsserts)), 0o644)
 		for _, s := range solvers {
 			if s.name == r.solver {
 				mr := runSolver(ctx, s, mfile, timeoutS)
